@@ -830,7 +830,7 @@ func init() {
 			v.Nontrivial = true
 			return v
 		},
-		Rule:        "gateways with 2 and 3 alternatives x all non-empty sequences of length <= 4 over the alternatives' events plus a stranger event, delivered sequentially (quiescence between deliveries; winner must be the first delivered alternative) and concurrently from different goroutines behind a barrier (exactly one request in total), signal and message events, determination hooks at probability 0/0.5/1; then the winner's task is answered: instance completes, waiter returns, late deliveries of every alternative have no effect; re-entry variants: alternative 0's branch loops back to the same gateway (2..4 activations), every activation must re-arm all alternatives and have exactly one winner, sequentially and with the second activation's events delivered at once; all cases non-trivial; distinct = descriptor hash; burst variants: ten non-matching events and then the sequence handed over back to back from one goroutine (exactly one winner among the delivered alternatives, completion, late deliveries without effect); two tokens at one gateway (together, or the second after the first was decided): a determination per token, the arriving alternative continues once per waiting token, completion",
+		Rule:        "gateways with 2 and 3 alternatives x all non-empty sequences of length <= 4 over the alternatives' events plus a stranger event, delivered sequentially (quiescence between deliveries; winner must be the first delivered alternative) and concurrently from different goroutines behind a barrier (exactly one request in total), signal and message events, determination hooks at probability 0/0.5/1; then the winner's task is answered: instance completes, waiter returns, late deliveries of every alternative have no effect; re-entry variants: alternative 0's branch loops back to the same gateway (2..4 activations), every activation must re-arm all alternatives and have exactly one winner, sequentially and with the second activation's events delivered at once; all cases non-trivial; distinct = descriptor hash; burst variants: ten non-matching events and then the sequence handed over back to back from one goroutine (exactly one winner among the delivered alternatives, completion, late deliveries without effect); two tokens at one gateway (together, or the second after the first was decided): a determination per token, the arriving alternative continues once per waiting token, completion; merge family: the alternatives' branches meet at an inclusive or exclusive merge in front of a common task requested exactly once",
 		Exhaustive:  func(tier string) bool { return tier == "thorough" },
 		Assumptions: []string{"events are delivered through Process.ConsumeEvent"},
 	})
